@@ -55,7 +55,13 @@ func (p *PauseController) UnmarshalJSON(data []byte) error {
 		return err
 	}
 
-	switch p.State {
+	// Re-apply the persisted state starting from a running controller, so
+	// that the transition sets up the unexported parts (the pause channel)
+	// just as the original command did.
+	state := p.State
+	p.State = PauseStateRunning
+
+	switch state {
 	case PauseStateRunning:
 		p.Resume()
 	case PauseStatePaused:
